@@ -171,11 +171,15 @@ func (e *engine) dispatch(worker int, raw []byte) error {
 
 func famOf(raw []byte) string {
 	s := string(raw)
-	i := strings.Index(s, `"fam":"`)
+	i := strings.Index(s, `"fam"`)
 	if i < 0 {
 		return ""
 	}
-	s = s[i+7:]
+	s = strings.TrimLeft(s[i+5:], " \t\n:")
+	if !strings.HasPrefix(s, `"`) {
+		return ""
+	}
+	s = s[1:]
 	j := strings.IndexByte(s, '"')
 	if j < 0 {
 		return ""
